@@ -26,6 +26,7 @@ import PgModel.EvoSched
 import PgProofs.EvoNumP
 import PgProofs.EvoPropP
 import PgProofs.EvoDriverP
+import PgProofs.EvoCluster
 import Mathlib.Tactic.NormNum
 import Mathlib.Data.List.Perm.Subperm
 namespace Pg.C14
@@ -183,6 +184,32 @@ theorem C14_selector_preserves {op : Op} {count : Nat → Nat} (h : SelectorLaw 
   intro pop st out st' hp hs hr
   obtain ⟨hm, _, hu⟩ := h pop st out st' hr
   exact ⟨fun y hy => hp y (hm y hy), by rw [hu]; exact hs⟩
+
+/-- `Top(n, cluster=True)` / `Bottom(n, cluster=True)` ("returns top / bottom N clusters; individuals
+that produce the same key form a cluster"): nothing is created, only members come back; clusters come
+back whole; the keys that come back are exactly the `min n #clusters` best DISTINCT keys (`bestKeys` is
+duplicate-free, of that length, and every one of its keys is represented) — repeated keys of a large
+leading cluster do not use up the `n` slots. -/
+theorem C14_selector_cluster (desc : Bool) (n : NSpec) (pop : Pop) (st : St) (out : Pop) (st' : St)
+    (h : (if desc then selTopCluster n else selBottomCluster n) pop st = .ok (out, st')) :
+    st' = st ∧ (∀ y ∈ out, y ∈ pop) ∧
+    (∀ y ∈ out, ∀ x ∈ pop, fitKey x = fitKey y → x ∈ out) ∧
+    (∀ y ∈ out, fitKey y ∈ bestKeys desc (numOutput n pop.length) pop) ∧
+    (∀ k ∈ bestKeys desc (numOutput n pop.length) pop, ∃ y ∈ out, fitKey y = k) ∧
+    (bestKeys desc (numOutput n pop.length) pop).Nodup ∧
+    (bestKeys desc (numOutput n pop.length) pop).length =
+      min (numOutput n pop.length) (dedupInt (pop.map fitKey)).length := by
+  obtain ⟨h1, h2, h3, h4, h5⟩ := selCluster_spec desc n pop st out st' h
+  obtain ⟨b1, _, b3⟩ := bestKeys_spec desc (numOutput n pop.length) pop
+  exact ⟨h1, h2, h3, h4, h5, b1, b3⟩
+
+/-- the seeded shape: keys 2, 2, 0, 3 and `Top(3, cluster=True)` — three clusters, four members. -/
+example : ∃ out st', selTopCluster (.count 3)
+    [{ uid := 0, dna := .space [], fit := some 2 }, { uid := 1, dna := .space [], fit := some 2 },
+     { uid := 2, dna := .space [], fit := some 0 }, { uid := 3, dna := .space [], fit := some 3 }]
+    { oracle := [], nextUid := 4 } = .ok (out, st') ∧ out.length = 4 := by
+  refine ⟨_, _, rfl, ?_⟩
+  simp [bestKeys, dedupInt, numOutput, fitKey, List.mergeSort]
 
 /-! ## Recombinators (recombinators.py): children are built by `DNA.from_dict`, whose last step
 validates and re-binds (`checked`) -/
